@@ -39,8 +39,15 @@ checks = {}
 for r in results.split():
     c, rc, sigs = (r.split(':', 2) + [''])[:3]
     checks[c] = dict(exit=int(rc.split('=')[1]), top_signatures=[s for s in sigs.split(',') if s])
+import os
+summ = {}
+try:
+    summ = json.load(open('/verif/tools/seed_summaries.json')).get('%s-%s' % (pid, n), {})
+except Exception:
+    pass
 json.dump(dict(property=pid, change=int(n), source='fresh sub-agent given only the property text and a scratch worktree',
-               needs='see notes.md (section for change %s)' % n,
+               summary=summ.get('summary', 'see notes.md (change %s)' % n),
+               needs=summ.get('needs', 'see notes.md (section for change %s)' % n),
                verified=dict(repository_tests_with_change=tests, demo_exit_on_unmodified_tree=int(clean_rc),
                              demo_exit_with_change=int(demo_rc),
                              how='tools/seed_verify.sh: private copy of /repo, git apply patch.diff, pytest, demo, ./check with VERIF_REPO'),
